@@ -25,9 +25,15 @@ type guard struct {
 	op   token.Token // for comparisons (as written, after removing NOT)
 	call *ssa.Call   // for boolean call conditions
 	neg  bool        // call condition under NOT
+	// only: a comparison taken out of a new boolean helper used as the condition. 1: a disjunct
+	// (a || b): it implies the true edge only; 2: a conjunct (a && b): its negation implies the
+	// false edge only.
+	only int8
 }
 
-func guardsOf(fn *ssa.Function) []guard {
+func guardsOf(fn *ssa.Function) []guard { return guardsOfX(fn, false) }
+
+func guardsOfX(fn *ssa.Function, derived bool) []guard {
 	var gs []guard
 	for _, b := range theCtx.GB(fn) {
 		if len(b.Instrs) == 0 {
@@ -118,12 +124,17 @@ func guardsOf(fn *ssa.Function) []guard {
 			}
 		case *ssa.Call:
 			gs = append(gs, guard{iff: iff, call: x, neg: neg})
-			// a new boolean helper `return a < u || b < c`: on the true edge of `if helper(...)` one of
-			// the comparisons held - each of them is a guard of this If (operands are looked through
-			// to the arguments of the call)
-			if hp := x.Call.StaticCallee(); hp != nil && !neg && theCtx.IsNew(hp) {
-				for _, d := range predicateDisjuncts(hp) {
-					gs = append(gs, guard{iff: iff, x: d.X, y: d.Y, op: d.Op})
+			// a new boolean helper used as the condition: `return a < u || b < c` - on the true edge one
+			// of the comparisons held; `return 1 <= d && d <= max` - on the false edge one of them failed.
+			// Operands are looked through to the arguments of the call. Only for obligations (rel).
+			if hp := x.Call.StaticCallee(); derived && hp != nil && !neg && theCtx.IsNew(hp) {
+				ds, conj := predicateParts(hp)
+				for _, d := range ds {
+					g := guard{iff: iff, x: d.X, y: d.Y, op: d.Op, only: 1}
+					if conj {
+						g.only = 2
+					}
+					gs = append(gs, g)
 				}
 			}
 		}
@@ -202,7 +213,7 @@ func newOb(c *Ctx, r *Report, rule string, fn *ssa.Function) *obCtx {
 	if fn == nil {
 		return nil
 	}
-	return &obCtx{c: c, r: r, rule: rule, fn: fn, gs: guardsOf(fn)}
+	return &obCtx{c: c, r: r, rule: rule, fn: fn, gs: guardsOfX(fn, true)}
 }
 
 func (o *obCtx) key(id string) string { return id + ":" + FnName(o.fn) }
@@ -236,6 +247,9 @@ func (o *obCtx) rel(id string, a, b role, badOp token.Token, desc string) *guard
 		default:
 			weak = append(weak, fmt.Sprintf("%s at %s", op, o.c.InstrPos(g.iff)))
 			continue
+		}
+		if (g.only == 1 && !edgeTrue) || (g.only == 2 && edgeTrue) {
+			continue // a part of a helper's condition says nothing about this edge
 		}
 		// g.op already accounts for a NOT around the condition: "raw condition true" <=> x g.op y
 		ok, why, trace := consequence(o.c, o.fn, g.iff, edgeTrue)
@@ -629,14 +643,14 @@ func roleFieldValue(c *Ctx, f *types.Var) role {
 	}
 }
 
-// predicateDisjuncts: the comparisons c1..cn of a small boolean function whose result is
-// c1 || ... || cn (nil for any other shape).
-func predicateDisjuncts(fn *ssa.Function) []*ssa.BinOp {
+// predicateParts: the comparisons c1..cn of a small boolean function whose result is c1 || ... || cn
+// (conj = false) or c1 && ... && cn (conj = true); nil for any other shape.
+func predicateParts(fn *ssa.Function) (parts []*ssa.BinOp, conj bool) {
 	if fn == nil || len(fn.Blocks) == 0 || len(fn.Blocks) > 8 || fn.Signature.Results().Len() != 1 {
-		return nil
+		return nil, false
 	}
 	if bt, ok := fn.Signature.Results().At(0).Type().Underlying().(*types.Basic); !ok || bt.Kind() != types.Bool {
-		return nil
+		return nil, false
 	}
 	var rets []*ssa.Return
 	for _, b := range fn.Blocks {
@@ -647,49 +661,58 @@ func predicateDisjuncts(fn *ssa.Function) []*ssa.BinOp {
 		}
 	}
 	if len(rets) != 1 {
-		return nil
+		return nil, false
 	}
-	var out []*ssa.BinOp
-	var walk func(v ssa.Value, depth int) bool
-	walk = func(v ssa.Value, depth int) bool {
-		if depth > 6 {
-			return false
-		}
-		switch x := v.(type) {
-		case *ssa.BinOp:
-			if !isCmp(x.Op) {
+	for _, want := range []bool{true, false} {
+		var out []*ssa.BinOp
+		var walk func(v ssa.Value, depth int) bool
+		walk = func(v ssa.Value, depth int) bool {
+			if depth > 6 {
 				return false
 			}
-			out = append(out, x)
-			return true
-		case *ssa.Phi:
-			for i, e := range x.Edges {
-				if k, isK := e.(*ssa.Const); isK {
-					bv, isB := constBool(k)
-					if !isB || !bv {
-						return false // an && form
-					}
-					// the edge carrying `true` comes from a block that ends in `if ci goto <here>`
-					pb := x.Block().Preds[i]
-					iff, isIf := pb.Instrs[len(pb.Instrs)-1].(*ssa.If)
-					if !isIf || pb.Succs[0] != x.Block() {
-						return false
-					}
-					if !walk(iff.Cond, depth+1) {
-						return false
-					}
-					continue
-				}
-				if !walk(e, depth+1) {
+			switch x := v.(type) {
+			case *ssa.BinOp:
+				if !isCmp(x.Op) {
 					return false
 				}
+				out = append(out, x)
+				return true
+			case *ssa.Phi:
+				for i, e := range x.Edges {
+					if k, isK := e.(*ssa.Const); isK {
+						bv, isB := constBool(k)
+						if !isB || bv != want {
+							return false
+						}
+						// `true` arrives from `if ci goto here` (||), `false` from `if ci goto next else here` (&&)
+						pb := x.Block().Preds[i]
+						iff, isIf := pb.Instrs[len(pb.Instrs)-1].(*ssa.If)
+						if !isIf {
+							return false
+						}
+						succ := 0
+						if !want {
+							succ = 1
+						}
+						if pb.Succs[succ] != x.Block() {
+							return false
+						}
+						if !walk(iff.Cond, depth+1) {
+							return false
+						}
+						continue
+					}
+					if !walk(e, depth+1) {
+						return false
+					}
+				}
+				return true
 			}
-			return true
+			return false
 		}
-		return false
+		if walk(rets[0].Results[0], 0) && len(out) > 0 {
+			return out, !want
+		}
 	}
-	if !walk(rets[0].Results[0], 0) {
-		return nil
-	}
-	return out
+	return nil, false
 }
